@@ -46,6 +46,12 @@ func F5(p P2, n int) (P2, int) { return P2{-9, -9}, -9 }
 
 type T struct{ v int }
 
+// holder13 starts with an interface: &h and &h.I are one address
+type holder13 struct {
+	I
+	n int
+}
+
 //go:noinline
 func (t *T) M(a int, s string) int { return -5 }
 
@@ -633,6 +639,15 @@ func TestC13(t *testing.T) {
 		{"non-function-target", "Func(&struct)", func(b *mocker.Builder) { b.Func(&T{}).Return(1) }},
 		{"non-function-callback", "Apply(5)", func(b *mocker.Builder) { b.Func(F1).Apply(5) }},
 		{"unknown-method", "Struct(&T{}).Method(Nope)", func(b *mocker.Builder) { b.Struct(&T{}).Method("Nope").Return(1) }},
+		{"unknown-method", "Struct(&T{}).Method(m) [another letter case of M]", func(b *mocker.Builder) { b.Struct(&T{}).Method("m").Return(1) }},
+		{"unknown-method", "Struct(&T{}).Method(m).Apply [another letter case of M]", func(b *mocker.Builder) {
+			b.Struct(&T{}).Method("m").Apply(func(t *T, a int, s string) int { return 0 })
+		}},
+		{"unknown-method", "Struct(&T{}).Method(m).When [another letter case of M]", func(b *mocker.Builder) { b.Struct(&T{}).Method("m").When(1, "a").Return(1) }},
+		{"unknown-method", "Interface(&iv).Method(get) [another letter case of Get]", func(b *mocker.Builder) {
+			b.Interface(&iv).Method("get").Apply(zeroFn(ifaceCb))
+		}},
+		{"unknown-method", "Struct(&T{}).Method(\" M\")", func(b *mocker.Builder) { b.Struct(&T{}).Method(" M").Return(1) }},
 		{"unknown-method", "Struct(&T{}).Method(\"\")", func(b *mocker.Builder) { b.Struct(&T{}).Method("").Return(1) }},
 		{"unknown-method", "Struct(&T{}).ExportMethod(nope).Apply", func(b *mocker.Builder) { b.Struct(&T{}).ExportMethod("nope").Apply(func(t *T) {}) }},
 		{"unknown-method", "Interface(&iv).Method(Nope)", func(b *mocker.Builder) { b.Interface(&iv).Method("Nope") }},
@@ -702,6 +717,22 @@ func TestC13(t *testing.T) {
 		{"interface-not-pointer", "Interface([2]I array pointer)", func(b *mocker.Builder) {
 			var xs [2]I
 			b.Interface(&xs).Method("Get").Apply(zeroFn(ifaceCb))
+		}},
+		// an object that starts at the address of an interface variable the builder already knows is still not that variable
+		{"interface-not-interface", "Interface(&holder) after Interface(&holder.I) [same address]", func(b *mocker.Builder) {
+			h := &holder13{}
+			b.Interface(&h.I)
+			b.Interface(h).Method("Get").Apply(zeroFn(ifaceCb))
+		}},
+		{"interface-not-interface", "Interface(&holder).As.Return after Interface(&holder.I).Apply [same address]", func(b *mocker.Builder) {
+			h := &holder13{}
+			b.Interface(&h.I).Method("Get").Apply(zeroFn(ifaceCb))
+			b.Interface(h).Method("Get").As(zeroFn(ifaceCb)).Return(1)
+		}},
+		{"interface-not-pointer", "Interface(&[2]I) after Interface(&xs[0]) [same address]", func(b *mocker.Builder) {
+			xs := new([2]I)
+			b.Interface(&xs[0])
+			b.Interface(xs).Method("Get").Apply(zeroFn(ifaceCb))
 		}},
 		{"interface-not-interface", "Interface(&struct)", func(b *mocker.Builder) { b.Interface(&NotIface{}).Method("Get").Apply(zeroFn(ifaceCb)) }},
 		{"interface-not-interface", "Interface(&int)", func(b *mocker.Builder) { x := 5; b.Interface(&x).Method("Get").Apply(zeroFn(ifaceCb)) }},
